@@ -38,7 +38,7 @@ Print Assumptions C19_verify_complete.
 
 Theorem C19_strip_v : forall s,
   (length s = 65%nat -> strip_v s = firstn 64 s) /\ (length s <> 65%nat -> strip_v s = s).
-Proof. intros s. split; [apply strip_v_65 | apply strip_v_other]. Qed.
+Proof. exact strip_v_spec. Qed.
 Print Assumptions C19_strip_v.
 
 (* only 64- and 65-byte signatures are ever accepted (go-ethereum's VerifySignature takes 64 bytes) *)
@@ -136,10 +136,7 @@ Print Assumptions C19_amino_roundtrip.
 
 Theorem C19_amino_rejects_wrong_size : forall pub key,
   len key < VARINT_MAX -> length key <> key_size pub -> amino_dec pub (amino_enc pub key) = None.
-Proof.
-  intros pub key Hl Hs. rewrite amino_roundtrip by exact Hl. unfold amino_unmarshal.
-  apply PeanoNat.Nat.eqb_neq in Hs. rewrite Hs. reflexivity.
-Qed.
+Proof. exact amino_rejects_wrong_size. Qed.
 Print Assumptions C19_amino_rejects_wrong_size.
 
 Theorem C19_amino_kind_separated : forall pub key, amino_dec (negb pub) (amino_enc pub key) = None.
@@ -149,15 +146,12 @@ Print Assumptions C19_amino_kind_separated.
 Theorem C19_encodings_injective : forall pub k1 k2,
   length k1 = key_size pub -> length k2 = key_size pub ->
   (amino_enc pub k1 = amino_enc pub k2 -> k1 = k2) /\ (proto_enc k1 = proto_enc k2 -> k1 = k2).
-Proof.
-  intros pub k1 k2 H1 H2. split; [apply amino_enc_injective; assumption|].
-  apply proto_enc_injective; unfold len; [rewrite H1 | rewrite H2]; destruct pub; reflexivity.
-Qed.
+Proof. exact encodings_injective. Qed.
 Print Assumptions C19_encodings_injective.
 
 Theorem C19_generate : forall bz,
   length (generate bz) = 32%nat /\ (length bz = 32%nat -> generate bz = bz).
-Proof. intros bz. split; [apply generate_length | apply generate_id]. Qed.
+Proof. exact generate_spec. Qed.
 Print Assumptions C19_generate.
 
 (* ================================================================= 3. HD derivation *)
@@ -248,12 +242,7 @@ Theorem C19_readings_well_formed_and_compatible : forall k1 k2 T1 T2 ty1 ty2 d1 
   tymap_ok T1 = true -> tymap_ok T2 = true ->
   read_struct k1 T1 ty1 d1 = Some t1 -> read_struct k2 T2 ty2 d2 = Some t2 ->
   wf t1 /\ wf t2 /\ compat t1 t2.
-Proof.
-  intros k1 k2 T1 T2 ty1 ty2 d1 d2 t1 t2 O1 O2 E1 E2. split; [|split].
-  - eapply read_struct_wf; exact E1.
-  - eapply read_struct_wf; exact E2.
-  - exact (read_struct_compat _ _ _ _ _ _ _ _ _ _ O1 O2 E1 E2).
-Qed.
+Proof. exact readings_well_formed_and_compatible. Qed.
 Print Assumptions C19_readings_well_formed_and_compatible.
 
 (* HashStruct(primaryType, data): equal hashes under possibly different type maps => the same typed value (type
@@ -431,3 +420,8 @@ Qed.
 Example C19_example_doc_renders :
   render (fun _ => repeat 0 32) C19_example_doc <> None /\ doc_view C19_example_doc <> None.
 Proof. vm_compute. split; discriminate. Qed.
+
+(* the member-wise relation of the capstone discriminates: two documents differing in one string member are unrelated *)
+Example C19_example_jsame_discriminates :
+  ~ jsame (JObj [(bs "memo", JStr (bs "a"))]) (JObj [(bs "memo", JStr (bs "b"))]).
+Proof. apply jsame_discriminates; [vm_compute; discriminate | reflexivity | reflexivity]. Qed.
